@@ -369,7 +369,7 @@ class Machine:
                 if not ops:
                     raise Fail("unwrap_into", "needs a value")
                 v = self.deref(ops.pop())
-                self.stack[-1].vars[a[0]] = Cell(v)
+                self.register_variable(a[0], v)       # nearest binding within the function (fix b1486bc)
                 ops.append(v is not NIL)
             elif op in ("call", "call_self"):
                 if op == "call_self":
